@@ -159,6 +159,12 @@ def cases(tier, seed):
             limited = shape in ("amp_chain", "reference_steps") and n > 120
             yield {"kind": "density:" + shape, "build": "rel" if n > 200 else "chk", "data": text, "meta": {"n": n},
                    "expect": None if limited else "accept", "shape": shape + ("" if n <= 200 else ":large")}
+    # long lists and operator chains (the dumps must walk them without one stack frame per element)
+    if quick:
+        for shape, n in (("statements", 12000), ("identifier_array", 12000), ("dense_ops", 12000), ("params", 8000), ("decls", 6000)):
+            text = density_shapes(n)[shape]
+            yield {"kind": "density:" + shape, "build": "rel", "data": text, "meta": {"n": n}, "expect": "accept",
+                   "shape": shape + ":large"}
     # literal-dense modules well under 64 KiB (the payload table of the lexer is pre-sized from the source length)
     for n in ([1100, 3000] if quick else [1023, 1024, 1025, 1100, 2000, 3000, 6000]):
         for shape in ("literals", "literal_statements", "dense_ops"):
